@@ -56,24 +56,26 @@ def _site(repo, caller, node, callee, is_ctor):
         pos = pos[1:]
     binding = {}
     star = False
+    old = getattr(callee, 'old_name', lambda x: x)        # renamed parameters keep the name the rules use
     for i, a in enumerate(node.args):
         if isinstance(a, ast.Starred):
             star = True
             break
         if i < len(pos):
-            binding[pos[i]] = a
+            binding[old(pos[i])] = a
     for k in node.keywords:
         if k.arg is None:
             star = True
         else:
-            binding[k.arg] = k.value
+            binding[old(k.arg)] = k.value
     return Site(caller, node, callee, binding, star)
 
 
 def b3_mismatches(site, names=None):
     """Bare-name argument ``x`` bound to parameter ``p != x`` while ``x`` is the
     name of a different parameter of the same callee."""
-    pnames = set(site.callee.param_names())
+    old = getattr(site.callee, 'old_name', lambda x: x)
+    pnames = {old(p) for p in site.callee.param_names()}
     out = []
     for p, a in site.binding.items():
         if isinstance(a, ast.Name) and a.id != p and a.id in pnames:
